@@ -512,7 +512,8 @@ lookup_pfn_block(kdump_ctx_t *ctx, kdump_pfn_t pfn, unsigned short tolerance)
 	while (block) {
 		if (block->idx3 > idx)
 			break;
-		if (idx <= block->idx3 + block->n + tolerance)
+		if (idx <= block->idx3 + block->n + tolerance &&
+		    !(block->next && block->next->idx3 <= idx))
 			return block;
 		block = block->next;
 	}
